@@ -92,6 +92,31 @@ def rule_K1(ctx):
         ctx.check(ok, "K1", "%s: fixed signature, every argument is part of the cache key" % fi.name, fi.where(), "variadic parameters on a memoised function", construct=fi.qualname, stmt="signature")
         ctx.analysed(fi)
     # (c) proposal caches: keyed on the concentration
+    # (e) a memoised function outside the confirmed table (a cache added later): lru_cache keys an object argument by
+    # the class's __eq__ / __hash__; whatever the body reads from that argument beyond what __eq__ compares is not in
+    # the key, and a later call with an "equal" object is served the earlier object's result
+    confirmed = want | {"compute_log_S", "_convolve_two_children"}
+    hints = {"tree": "Tree", "subtree": "Tree", "new_tree": "Tree", "parent_tree": "Tree", "data_point": "data.base.DataPoint", "parent_particle": "Particle", "particle": "Particle",
+             "tree_dist": "TreeJointDistribution", "holder": "TreeHolder", "tree_holder": "TreeHolder"}
+    for fi, kind in ms:
+        if fi.name in confirmed or kind not in ("lru_cache", "cache"):
+            continue
+        for pname in fi.params:
+            reads = sorted({n.attr for n in ast.walk(fi.node) if isinstance(n, ast.Attribute) and isinstance(n.value, ast.Name) and n.value.id == pname})
+            if not reads:
+                continue  # used as a value only (a number, a string, a tuple)
+            cname = hints.get(pname)
+            if cname is None:
+                raise AnalysisError("K1: new memoised function %s dereferences its argument %s (%s); its class is not known to this check" % (fi.qualname, pname, reads[:4]))
+            ci = prog.cls(cname)
+            eq = ci.methods.get("__eq__")
+            compared = set()
+            if eq is not None:
+                compared = {n.attr for n in ast.walk(eq.node) if isinstance(n, ast.Attribute)} | {c.func.attr for c in ast.walk(eq.node) if isinstance(c, ast.Call) and isinstance(c.func, ast.Attribute)}
+            extra = [r for r in reads if r not in compared]
+            ctx.check(eq is None or not extra, "K1", "%s (memoised): argument %s is keyed by what the body reads" % (fi.name, pname), fi.where(),
+                      "%s is memoised with %s; its argument %s is compared by %s.__eq__ (%s) but the body reads %s from it: two objects that compare equal and differ there share one cache entry" % (fi.qualname, kind, pname, ci.name, sorted(compared) or "identity", extra[:6]),
+                      construct=fi.qualname, stmt="memoised on %s" % pname)
     tj = prog.cls("TreeJointDistribution")
     fs = prog.cls("FSCRPDistribution")
     alpha_eq = _compares_alpha(prog, fs) and _delegates_to_prior(prog, tj)
